@@ -25,7 +25,7 @@ import (
 // c14Expr is one expression of the closed expression vocabulary. The source
 // text and the reference value are both derived from it (c14ExprSrc, c14Eval).
 type c14Expr struct {
-	F string `json:"f"`           // var | path | not | must | gt | eq | cat | lit
+	F string `json:"f"`           // var | path | not | must | wrap | eqwrap | gt | eq | cat | lit
 	V string `json:"v,omitempty"` // variable name
 	L *TV    `json:"l,omitempty"` // literal (lit) or right operand (gt: int, eq/cat: string)
 }
@@ -76,6 +76,10 @@ func c14ExprSrc(e c14Expr) string {
 		return "!" + e.V
 	case "must": // the whole binding is a mustache: the value's text is the value
 		return "{{ " + e.V + " }}"
+	case "wrap": // an expression that begins and ends with a quoted literal without being one
+		return "'w-' + " + e.V + " + '-z'"
+	case "eqwrap":
+		return "'tab-' + " + e.V + " == 'tab-a'"
 	case "gt":
 		return fmt.Sprintf("%s > %d", e.V, e.L.I)
 	case "eq":
@@ -116,6 +120,15 @@ func c14Eval(e c14Expr, vars map[string]TV) (TV, bool) {
 	case "not":
 		t, dec := get().Truthy()
 		return tvB(!t), dec
+	case "wrap", "eqwrap":
+		v := get()
+		if v.K != "string" {
+			return TV{}, false
+		}
+		if e.F == "wrap" {
+			return tvS("w-" + v.S + "-z"), true
+		}
+		return tvB("tab-"+v.S == "tab-a"), true
 	case "must":
 		v := get()
 		if (v.K == "string" && v.S != "" && v.S != "false" && v.S != "0") || (v.K == "int" && v.I != 0) {
@@ -349,6 +362,9 @@ func c14Atoms() []c14Atom {
 		add(c14Attr{K: "cobj", P: ":", N: "class", Ents: []c14Ent{ent("dq", `"`, *c14EVar("v$")), ent("lit", "", c14Lit(tvS("s")))}}, "v$", tvB(true))
 		add(c14Attr{K: "cobj", P: ":", N: "class", Ents: []c14Ent{ent("md:flex", "'", *c14EVar("v$")), ent("hover:bg-red", `"`, *c14EVar("w$")), ent("plain", "", *c14EVar("v$"))}}, "v$", tvB(true), "w$", tvB(false))
 		add(c14Attr{K: "cobj", P: ":", N: "class", Ents: []c14Ent{ent("mx", "", *c14Op("max", "v$", tvI(2))), ent("mn", "", *c14Op("min", "w$", tvI(3))), ent("after", "", *c14EVar("u$"))}}, "v$", tvI(0), "w$", tvI(0), "u$", tvB(true))
+		// object values that begin and end with a quoted literal
+		add(c14Attr{K: "cobj", P: ":", N: "class", Ents: []c14Ent{ent("sel", "", c14Expr{F: "eqwrap", V: "v$"}), ent("other", "", c14Expr{F: "eqwrap", V: "w$"}), ent("named", "", c14Expr{F: "wrap", V: "v$"})}}, "v$", tvS("a"), "w$", tvS("b"))
+		add(c14Attr{K: "sobj", P: ":", N: "style", Ents: []c14Ent{ent("backgroundImage", "", c14Expr{F: "wrap", V: "v$"}), ent("color", "", c14Lit(tvS("red")))}}, "v$", tvS("img"))
 		// bound style
 		add(bd(":", "style", c14EVar("v$")), "v$", tvS("color: red; width: 1px"))
 		add(bd(":", "style", c14EVar("v$")), "v$", tvS(""))
